@@ -486,11 +486,16 @@ def run_c08(R, tier, rng):
                     C.cmp(f"padded {side} {tagc}", "padded/" + side, nt, lambda: (lambda p_: [kl(p_), list(p_.shape), str(p_.dtype)])(mk().as_padded_matrix(side=side, fill_value=fv)),
                           lambda: [kl(np.array([(r + [fv] * (m - len(r))) if side == "right" else ([fv] * (m - len(r)) + r) for r in X], dtype=dt).reshape(n, m)), [n, m], dt],
                           py=f"RaggedArray({X}, dtype='{dt}').as_padded_matrix(side='{side}', fill_value={fv})")
-            C.cmp(f"nonzero {tagc}", "nonzero", nt, lambda: [kl(a) for a in np.nonzero(mk())] + [str(a.dtype) for a in np.nonzero(mk())],
+            C.cmp(f"nonzero {tagc}", "nonzero", nt, lambda: (lambda nz_: [kl(a) for a in nz_] + [str(a.dtype) for a in nz_])(np.nonzero(mk())),
                   lambda: [[i for i, r in enumerate(X) for j, v in enumerate(r) if np.dtype(dt).type(v) != 0], [j for i, r in enumerate(X) for j, v in enumerate(r) if np.dtype(dt).type(v) != 0], "int64", "int64"],
                   py=f"np.nonzero(RaggedArray({X}, dtype='{dt}'))")
             C.cmp(f"ra.nonzero {tagc}", "nonzero", nt, lambda: [kl(a) for a in mk().nonzero()],
                   lambda: [[i for i, r in enumerate(X) for j, v in enumerate(r) if np.dtype(dt).type(v) != 0], [j for i, r in enumerate(X) for j, v in enumerate(r) if np.dtype(dt).type(v) != 0]])
+            if VARIANT[0] == "view" and n and rep == 0:        # the method spelling as the FIRST thing done to every kind of derived array (the rotation above reaches only one kind per case)
+                for kv in range(6):
+                    C.cmp(f"ra.nonzero first-use view-kind {kv} {tagc}", "nonzero/first-use-of-derived", nt, lambda: [kl(a) for a in view_of(X, dt, kv).nonzero()],
+                          lambda: [[i for i, r in enumerate(X) for j, v in enumerate(r) if np.dtype(dt).type(v) != 0], [j for i, r in enumerate(X) for j, v in enumerate(r) if np.dtype(dt).type(v) != 0]],
+                          py=f"<derived array kind {kv} equal to RaggedArray({X}, dtype='{dt}')>.nonzero()")
             M = [[rng.random() < .5 for _ in r] for r in X]
             Y = fill(ls, VALS[dt], si + 4)
             C.cmp(f"where ragged {tagc} {M}", "where", nt, lambda: ra_obs(np.where(RaggedArray(M, dtype=bool), mk(), RaggedArray(Y, dtype=dt))),
